@@ -37,20 +37,18 @@ def seq(term, ty, src="slice", ops=None):
     body = input_decl(n) + "    model::begin_unscheduled(4);\n"
     if term == "for_each":
         k = p.final_kind()
-        body += f"    {p.par('.num_threads(1)')}.for_each(move |x| {{ let _ = {val_of(k, 'x')}; }});\n"
+        body += f"    {p.par('.num_threads(1).chunk_size(1)')}.for_each(move |x| {{ let _ = {val_of(k, 'x')}; }});\n"
     elif term == "collect_into":
-        body += f"    let out = {p.par('.num_threads(1)')}.collect_into(Vec::new());\n"
+        body += f"    let out = {p.par('.num_threads(1).chunk_size(1)')}.collect_into(Vec::new());\n"
         body += seq_eq_loop(p.seq(), p.final_kind(), "out", 0)
     else:
-        body += terminal_code(p, ".num_threads(1)", term, n)
+        body += terminal_code(p, ".num_threads(1).chunk_size(1)", term, n)
     body += SEQ + "    kani::cover!(true);\n"
     sig = "".join({"map": "m", "filter": "f", "filter_map": "o", "flat_map": "l"}[o.kind] for o in p.ops)
     name = cfg_name("c08_max1", term, p.type(), src, ("eager_" + sig) if p.eager_sites() else "")
     return H(name, body, {"terminal": term, "type": p.type(), "pipeline": p.descr(), "n": n, "threads": 1, "num_threads": "Max(1)",
                           "available_parallelism": 4, "schedule": "must stay on the caller"},
-             # 23: if a Max(1) computation wrongly reaches Runner::new, its auto-chunk search (21 halvings) must unwind so
-             # that the wrong scope entry is reported as the violation it is (and not as an unwinding failure)
-             unwind=23, weight=6)
+             unwind=(2 * n + 3 if any(o.kind == "flat_map" for o in p.ops) else n + 3), weight=6)
 
 
 def harnesses(tier, seed):
